@@ -29,8 +29,10 @@ pub proof fn lemma_fold_max_is_the_maximum(init: int, told: Seq<int>)
 //@ returns r
 //@ ghostparam Tracked(w): Tracked<&mut World>
 //@ implicit [C06,C20]
+//@ requires#start
+      old(w).height >= old(w).height_read
 //@ ensures#never_decreases [C20,C04]
-      final(w).height >= old(w).height
+      final(w).height >= old(w).height && final(w).height >= final(w).height_read
 //@ ensures#leaves_the_max_of_the_value_found_and_the_new_height [C20]
 //    one critical section: the cell ends at max(value found under the lock, new height)
       final(w).height == (if new_height as int > final(w).height_read { new_height as int } else { final(w).height_read })
@@ -43,8 +45,11 @@ pub proof fn lemma_fold_max_is_the_maximum(init: int, told: Seq<int>)
 //@ returns r
 //@ ghostparam Tracked(w): Tracked<&mut World>
 //@ implicit [C06,C20]
+//@ requires#start
+      old(w).height >= old(w).height_read
 //@ ensures#only_through_update_height [C20]
-      final(w).height >= old(w).height
+//    never below what was there before, nor below what any of its critical sections found
+      final(w).height >= old(w).height && final(w).height >= final(w).height_read
 //@ ensures#applies_the_polled_height [C20]
 //    a successful poll leaves the height at least at what the node reported
       r is Ok ==> final(w).height >= final(w).last_polled
@@ -53,8 +58,10 @@ pub proof fn lemma_fold_max_is_the_maximum(init: int, told: Seq<int>)
 //@ fn block_watcher::BlockWatcher::new_block
 //@ ghostparam Tracked(w): Tracked<&mut World>
 //@ implicit [C06,C20]
+//@ requires#start
+      old(w).height >= old(w).height_read
 //@ ensures#only_through_update_height [C20]
-      final(w).height >= old(w).height && final(w).height >= block.height as int
+      final(w).height >= old(w).height && final(w).height >= final(w).height_read && final(w).height >= block.height as int
 //@ end
 
 //@ fn block_watcher::BlockWatcher::new
@@ -66,6 +73,8 @@ pub proof fn lemma_fold_max_is_the_maximum(init: int, told: Seq<int>)
 //@ returns r
 //@ ghostparam Tracked(w): Tracked<&mut World>
 //@ implicit [C06,C20]
+//@ requires#start
+      old(w).height >= old(w).height_read
 //@ ensures#reads_the_cell_without_changing_it [C20,C04]
       final(w).height >= old(w).height && final(w).height == final(w).height_read
       && r as int == final(w).height_read && r as int <= final(w).height && r as int >= old(w).height
